@@ -45,7 +45,7 @@ class C11(Prop):
     ]
     quick_search_s = 90
     thorough_search_s = 600
-    coq_eval_timeout = 2400
+    coq_eval_timeout = 300
 
     def shards(self, tier, seed):
         if tier == "quick":
